@@ -37,9 +37,14 @@ func (s *ConcurrencyStatSlot) Order() uint32 {
 	return StatSlotOrder
 }
 
+// unitsKey is the key under which OnEntryPassed leaves, in the context of the entry, the
+// counters it incremented.
+type unitsKey struct{}
+
 func (c *ConcurrencyStatSlot) OnEntryPassed(ctx *base.EntryContext) {
 	res := ctx.Resource.Name()
 	tcs := getTrafficControllersFor(res)
+	var units []*int64
 	for _, tc := range tcs {
 		if tc.BoundRule().MetricType != Concurrency {
 			continue
@@ -57,6 +62,13 @@ func (c *ConcurrencyStatSlot) OnEntryPassed(ctx *base.EntryContext) {
 			continue
 		}
 		atomic.AddInt64(concurrencyPtr, 1)
+		units = append(units, concurrencyPtr)
+	}
+	if len(units) > 0 {
+		if ctx.Data == nil {
+			ctx.Data = make(map[interface{}]interface{})
+		}
+		ctx.Data[unitsKey{}] = units
 	}
 }
 
@@ -64,25 +76,13 @@ func (c *ConcurrencyStatSlot) OnEntryBlocked(ctx *base.EntryContext, blockError 
 	// Do nothing
 }
 
+// OnCompleted gives back exactly the units this entry took. The rules may have been loaded,
+// removed or modified since it was admitted: looking the counters up again through the rules
+// in force now would release units the entry never took, or none at all.
 func (c *ConcurrencyStatSlot) OnCompleted(ctx *base.EntryContext) {
-	res := ctx.Resource.Name()
-	tcs := getTrafficControllersFor(res)
-	for _, tc := range tcs {
-		if tc.BoundRule().MetricType != Concurrency {
-			continue
-		}
-		arg := tc.ExtractArgs(ctx)
-		if arg == nil {
-			continue
-		}
-		metric := tc.BoundMetric()
-		concurrencyPtr, existed := metric.ConcurrencyCounter.Get(arg)
-		if !existed || concurrencyPtr == nil {
-			if logging.DebugEnabled() {
-				logging.Debug("[ConcurrencyStatSlot OnCompleted] Parameter does not exist in ConcurrencyCounter.", "argument", arg)
-			}
-			continue
-		}
+	units, _ := ctx.Data[unitsKey{}].([]*int64)
+	for _, concurrencyPtr := range units {
 		atomic.AddInt64(concurrencyPtr, -1)
 	}
+	delete(ctx.Data, unitsKey{})
 }
